@@ -403,35 +403,26 @@ def spec_compose_parsable_array(self, values, separator=None):
         raise I.Decline()
     P = E.cur()
 
-    def members_cannot_compose(ecls, some_known):
+    def members_cannot_compose(ecls, witness_known, none_known):
         """the body calls item.compose() on every item: members of an enumeration without a compose method (the
         cryptodatahub tables carry none) make it raise AttributeError as soon as one of them is in the sequence"""
         if hasattr(ecls, 'compose'):
             return
         if P.choose('a member without compose() is in the sequence'):
-            P.assume(some_known())
+            P.assume(witness_known)
             ops.raise_(AttributeError, "'%s' object has no attribute 'compose'" % ecls.__name__)
-        P.assume(z3.Not(some_known()))
+        P.assume(none_known)
     if values.elem[0] == 'coded':
         sp = values.elem[1]
         codes, w = values, sp.width
         wit = V.fresh_int('member_at')
         j = z3.Int('j!q')
-        first = [True]
-
-        def some_known():
-            if first[0]:
-                first[0] = False
-                return z3.And(wit >= 0, wit < values.n, sp.known(values.at(wit)))
-            return z3.Exists([j], z3.And(j >= 0, j < values.n, sp.known(values.at(j))))
-        members_cannot_compose(sp.wrap_known if sp.wrap_known is not None else sp.enum_cls, some_known)   # known items may be wrapper objects
+        members_cannot_compose(sp.wrap_known if sp.wrap_known is not None else sp.enum_cls,      # known items may be wrapper objects
+                               z3.And(wit >= 0, wit < values.n, sp.known(values.at(wit))),
+                               z3.ForAll([j], z3.Implies(z3.And(j >= 0, j < values.n), z3.Not(sp.known(values.at(j))))))
     else:
         ecls = values.elem[1]
-        flip = [True]
-
-        def some_member():
-            return values.n > 0
-        members_cannot_compose(ecls, some_member)
+        members_cannot_compose(ecls, values.n > 0, values.n == 0)
         sizes = {m.value.get_code_size() for m in ecls} if all(hasattr(m.value, 'get_code_size') for m in ecls) else set()
         if len(sizes) != 1:
             raise I.Decline()
